@@ -1334,7 +1334,21 @@ func (g *c06) mutate(c *C06Case) {
 		}
 		nmut := 1 + g.r.Intn(3)
 		for k := 0; k < nmut; k++ {
-			t := inside[g.r.Intn(len(inside))]
+			kind := g.pick([]string{"augment", "augment", "not-supported", "add", "replace", "delete", "replace", "add"})
+			pool := inside
+			if kind == "augment" {
+				pool = nil
+				for _, t := range inside {
+					switch t.n.Kw {
+					case "container", "list", "case", "choice", "input", "output", "notification":
+						pool = append(pool, t)
+					}
+				}
+				if len(pool) == 0 {
+					continue
+				}
+			}
+			t := pool[g.r.Intn(len(pool))]
 			// one change per node, and nothing at, inside or above a node that another change names
 			// (a removed node cannot be named again; a change above would reach into this one)
 			tp := append([]string{t.mod.Name}, stepsPath(t.steps, true)...)
@@ -1348,7 +1362,6 @@ func (g *c06) mutate(c *C06Case) {
 				continue
 			}
 			host, pfx := hostFor(t.mod)
-			kind := g.pick([]string{"augment", "not-supported", "add", "replace", "delete", "replace", "add"})
 			var st *Node
 			switch kind {
 			case "augment":
